@@ -84,12 +84,14 @@ def verify_tree():
     for f in all_fail:
         if f['fn'] and not vrun.is_module_abort(f['msg']):
             by_fn.setdefault(f['fn'], []).append(f)
-    if 0 < len(by_fn) <= 12:
-        for fn in sorted(by_fn):
+    rl_fns = sorted({t['fn'] for t in tool if t['fn'] and re.search(r'rlimit|Resource limit', t['msg'])})
+    if 0 < len(by_fn) + len(rl_fns) <= 12:
+        for fn in sorted(set(by_fn) | set(rl_fns)):
             ok_seed = vrun.retry_function(b['text'], fn)
             retried[fn] = ok_seed
             if ok_seed is not None:
                 all_fail = [f for f in all_fail if f['fn'] != fn]
+                tool = [t for t in tool if t['fn'] != fn]
     return {'build': b, 'failures': all_fail, 'tool': tool + [t for t in tool_hist if t not in tool], 'res': res, 'forced': sorted(forced), 'retried': retried}
 
 
